@@ -128,6 +128,10 @@ class AbsRaise(Exception):
         self.exc_type, self.detail, self.obj = exc_type, detail, obj
 
 
+_MUTATORS = {"append", "extend", "insert", "pop", "remove", "clear", "sort", "reverse", "add", "discard", "update",
+             "setdefault", "popitem"}
+
+
 class Unsupported(Exception):
     pass
 
@@ -862,6 +866,8 @@ class Evaluator:
                 return rets[0].value
             return TOP
         if isinstance(fn, tuple) and fn and fn[0] == "bound":
+            if fn[2] in _MUTATORS and isinstance(fn[1], (Const, list, dict, set)) and not (isinstance(fn[1], Const) and isinstance(fn[1].v, (str, bytes, int, float, tuple, frozenset, type(None)))):
+                return self.mutate(e, fn[1], fn[2], args, env)
             return self.method(fn[1], fn[2], args, kwargs, e)
         if isinstance(fn, EnumClass):
             if len(args) == 1 and isinstance(args[0], Const):
@@ -877,6 +883,41 @@ class Evaluator:
         ob = Obj(name, args, kwargs)
         self.events.append(ob)
         return TOP
+
+    def mutate(self, e: ast.Call, base: Any, attr: str, args: List[Any], env: Env) -> Any:
+        """In-place mutation of a known container: modelled as a rebinding of the receiver variable (forked paths
+        share container objects, so the object itself is never modified).  Anything but `name.append(x)` /
+        `name.extend(xs)` on an unaliased local is outside the evaluator (Unsupported -> undecided, never a
+        wrong value)."""
+        recv = e.func.value  # type: ignore
+        if not (isinstance(recv, ast.Name) and env.has(recv.id) and env.get(recv.id) is base):
+            raise Unsupported(f"mutation of a container that is not a plain local: {unparse(e, 60)}")
+        cur: Optional[Env] = env
+        owner: Optional[Env] = None
+        while cur is not None:
+            for k, v in cur.vars.items():
+                if v is base and k != recv.id:
+                    raise Unsupported(f"mutation of an aliased container: {unparse(e, 60)}")
+            if owner is None and recv.id in cur.vars:
+                owner = cur
+            cur = cur.parent
+        if isinstance(base, Const) and isinstance(base.v, list):
+            elems: List[Any] = [Const(x) for x in base.v]
+        elif isinstance(base, list):
+            elems = list(base)
+        else:
+            raise Unsupported(f"mutation `{attr}` of {type(base).__name__}: {unparse(e, 60)}")
+        if attr == "append" and len(args) == 1:
+            elems = elems + [args[0]]
+        elif attr == "extend" and len(args) == 1 and (isinstance(args[0], (list, tuple)) or (isinstance(args[0], Const) and isinstance(args[0].v, (list, tuple)))):
+            a = args[0]
+            elems = elems + ([Const(x) for x in a.v] if isinstance(a, Const) else list(a))
+        else:
+            raise Unsupported(f"mutation `{attr}`: {unparse(e, 60)}")
+        new: Any = Const([x.v for x in elems]) if all(isinstance(x, Const) for x in elems) else elems
+        assert owner is not None
+        owner.vars[recv.id] = new
+        return Const(None)
 
     def _callee_name(self, fn: Any, e: ast.Call, scope: Union[Func, Module]) -> str:
         if isinstance(fn, Closure):
@@ -964,9 +1005,6 @@ class Evaluator:
                 return list(base.values())
             return TOP
         if isinstance(base, list):
-            if attr == "append" and args:
-                base.append(args[0])
-                return Const(None)
             return TOP
         if isinstance(base, Obj):
             ob = Obj(f"{base.callee}.{attr}", args, kwargs)
